@@ -74,7 +74,7 @@ def strategy_(draw, tier):
         pts += [b * bs, (b + 1) * bs]
     spec["requests"] = draw(strat.requests(spec["disk_size"], bs, count=6, points=pts, whole_limit=4 << 20))
     spec["via_gzip"] = draw(st.integers(0, 7)) == 0
-    spec["via_minimal"] = draw(st.sampled_from([None, None, None, None, "plain", "seek-none", "reopen", "shared"]))
+    spec["via_minimal"] = draw(st.sampled_from([None, None, None, None, "plain", "seek-none", "reopen", "shared", "tempfile"]))
     spec["fault"] = draw(strat.fault())
     spec["flavours"] = draw(st.booleans())
     spec["parent_positional"] = draw(st.booleans())
@@ -143,7 +143,7 @@ def check(spec) -> Outcome:
     if v.size != spec["disk_size"]:
         out.fail("mismatch|vdi-size", f"size {v.size} != {spec['disk_size']}")
     check_reads(out, v, lay, spec["requests"], "vdi", fault=spec.get("fault"), fault_fh=fh)
-    if spec.get("via_minimal") in ("reopen", "shared") and not spec.get("parent"):
+    if spec.get("via_minimal") in ("reopen", "shared", "tempfile") and not spec.get("parent"):
         from hv.core import also_minimal
 
         also_minimal(out, spec, fh, VDI, lay, spec["requests"], "vdi")
